@@ -158,6 +158,7 @@ pub fn crl_space(iss: &Issuers, conformant_only: bool) -> Space<CrlCase> {
         ("two reversed", vec![full.clone(), at[0].clone()]),
         ("same serial twice", vec![at[0].clone(), RevokedSpec { reason: Some(4), ..at[0].clone() }]),
         ("serial 80", vec![RevokedSpec { serial: vec![0x80], ..at[0].clone() }]),
+        ("invalidity date with a sub-second part and an offset", vec![at[0].clone(), RevokedSpec { invalidity: Some(TimeSpec::ymdhms(2024, 2, 27, 2, 13, 20).with_nanos(500_000_000).with_offset(-3600)), time: TimeSpec::ymdhms(2024, 3, 1, 0, 0, 0).with_nanos(1), ..at[0].clone() }]),
     ];
     for (l, v) in lists {
         d = d.v(l, move |c: &mut CrlCase| c.st.revoked = v.clone());
@@ -298,7 +299,7 @@ pub fn add_sections(rep: &mut Report, prop: &str, thorough: bool, conformant_onl
     let space = crl_space(&iss, conformant_only);
     let cap = if thorough { 1100 } else { 50 };
     {
-        let sec = Section::new("crl/levels", "all CRL states with exactly k non-default dimensions (updates 399, crl_number 9, idp 9, revoked 8, key_id 5, issuer 23)").with_deadline(cap);
+        let sec = Section::new("crl/levels", "all CRL states with exactly k non-default dimensions (updates 399, crl_number 9, idp 9, revoked 9, key_id 5, issuer 23)").with_deadline(cap);
         run::levels(&sec, &space, if thorough { 5 } else { 3 }, &|c, _| judge(prop, &known, c, &iss, true));
         rep.add(sec);
     }
